@@ -5,6 +5,9 @@
 #include "private/implementations.h"
 #include "randombytes.h"
 #include "runtime.h"
+#ifdef SODIUM_VERIF
+# include "private/verif.h"
+#endif
 #include "stream_chacha20.h"
 
 #include "ref/chacha20_ref.h"
@@ -14,9 +17,6 @@
 #endif
 #if defined(HAVE_EMMINTRIN_H) && defined(HAVE_TMMINTRIN_H)
 # include "dolbeau/chacha20_dolbeau-ssse3.h"
-#ifdef SODIUM_VERIF
-# include "private/verif.h"
-#endif
 #endif
 
 static const crypto_stream_chacha20_implementation *implementation =
